@@ -6,6 +6,8 @@ import FpgoVerif.Model.C04Spec
       kind `L`  operands are element lists      `nil` | `[]` | `[0.1.2]`
       kind `M`  operands are key→value maps     `nil` | `nilmap` | `{}` | `{0:10,1:11}`
       kind `S`  operands are key→stream maps    `nil` | `{}` | `{0:[0.1],1:[]}`
+      long operands are written compactly: `[0.1.2*140]` = the pattern cycled to 140 items; a map entry
+      `0-63:5` / `0-63:[0.1*70]` = the keys 0..63 each with that value / stream
       kind `P` / `R`  histories (as kind `Q` below) of Stream resp. MapSet operations on element lists / maps
       kind `Q`  like `S`, but the operands are built ONCE and the ops form a history on the same objects:
                 `union:r:a` (receiver = object #r, argument = object #a or `n` for nil) appends its result as a
@@ -45,12 +47,34 @@ def allSome {β : Type} : List (Option β) → Option (List β)
   | none :: _ => none
   | some x :: t => (allSome t).map (x :: ·)
 
-/-- `[]`, `[0.1.2]` -/
+/-- `pattern` cycled to length `n` -/
+def cycleTo (pattern : List Nat) (n : Nat) : Option (List Nat) :=
+  if n = 0 then some [] else
+  if pattern.isEmpty then none else
+  some ((List.range n).map (fun i => pattern.getD (i % pattern.length) 0))
+
+/-- `[]`, `[0.1.2]`; `[0.1.2*140]` = the pattern cycled to 140 items (long operands, compactly);
+    a trailing `+n` = spare capacity, not content -/
 def parseList (s : String) : Option (List Nat) :=
   if s.startsWith "[" && s.endsWith "]" then
-    let body := ((inner s).splitOn "+").headD ""   -- `+n` = spare capacity, not content
-    if body = "" then some [] else allSome ((body.splitOn ".").map String.toNat?)
+    let body := ((inner s).splitOn "+").headD ""
+    match body.splitOn "*" with
+    | [pat] => if pat = "" then some [] else allSome ((pat.splitOn ".").map String.toNat?)
+    | [pat, n] =>
+      match (if pat = "" then some [] else allSome ((pat.splitOn ".").map String.toNat?)), n.toNat? with
+      | some p, some n => cycleTo p n
+      | _, _ => none
+    | _ => none
   else none
+
+/-- key part of a map entry: `7` or the range `0-63` -/
+def parseKeys (k : String) : Option (List Nat) :=
+  match k.splitOn "-" with
+  | [a] => a.toNat?.map (fun a => [a])
+  | [a, b] => match a.toNat?, b.toNat? with
+    | some a, some b => if a ≤ b then some ((List.range (b - a + 1)).map (· + a)) else none
+    | _, _ => none
+  | _ => none
 
 /-- operand of kind L: `none` = nil -/
 def parseListOpd (s : String) : Option (Option (List Nat)) :=
@@ -63,10 +87,18 @@ def parseKV (s : String) : Option (Nat × Nat) :=
     | _, _ => none
   | _ => none
 
+/-- `0-63:5` = the keys 0..63, each with value 5 -/
+def parseKVs (s : String) : Option (List (Nat × Nat)) :=
+  match s.splitOn ":" with
+  | [k, v] => match parseKeys k, v.toNat? with
+    | some ks, some v => some (ks.map (fun k => (k, v)))
+    | _, _ => none
+  | _ => none
+
 def parseMap (s : String) : Option (GoMap Nat Nat) :=
   if s.startsWith "{" && s.endsWith "}" then
     let body := inner s
-    if body = "" then some [] else allSome ((body.splitOn ",").map parseKV)
+    if body = "" then some [] else (allSome ((body.splitOn ",").map parseKVs)).map List.flatten
   else none
 
 /-- operand of kind M: `none` = nil pointer/interface, `nilmap` = pointer to a nil map -/
@@ -80,10 +112,18 @@ def parseKS (s : String) : Option (Nat × List Nat) :=
     | _, _ => none
   | _ => none
 
+/-- `0-63:[0.1*70]` = the keys 0..63, each with that stream -/
+def parseKSs (s : String) : Option (List (Nat × List Nat)) :=
+  match s.splitOn ":" with
+  | [k, v] => match parseKeys k, parseList v with
+    | some ks, some v => some (ks.map (fun k => (k, v)))
+    | _, _ => none
+  | _ => none
+
 def parseSS (s : String) : Option (GoMap Nat (List Nat)) :=
   if s.startsWith "{" && s.endsWith "}" then
     let body := inner s
-    if body = "" then some [] else allSome ((body.splitOn ",").map parseKS)
+    if body = "" then some [] else (allSome ((body.splitOn ",").map parseKSs)).map List.flatten
   else none
 
 def parseSSOpd (s : String) : Option (Option (GoMap Nat (List Nat))) :=
